@@ -856,6 +856,83 @@ async fn backpressure_stop_case(seed: u64) -> BpOut {
 	out
 }
 
+// ---------------------------------------------------------------------------------------------------------------
+// A call that takes its time after the stop, on servers with timers configured (REAL time: the timers in question read the
+// system clock). (a) WebSocket pings enabled with a short inactivity limit, the peer answers every ping: the call that is
+// executing at stop() still runs 350 ms and must be answered before the connection goes. (b) The default `Server` over TCP
+// with HTTP keep-alive and a short keep-alive timeout configured: the same for a plain HTTP call.
+
+async fn slow_call_after_stop_case(seed: u64, http: bool) -> BpOut {
+	let mut out = BpOut::default();
+	let sh = Arc::new(Shared::default());
+	let tag = format!("slow{:x}", seed & 0xffff);
+	macro_rules! bad {
+		($sig:expr, $($arg:tt)*) => { out.violations.push(($sig.to_string(), format!($($arg)*))) };
+	}
+	let wait_started = |sh: Arc<Shared>, tag: String| async move {
+		for _ in 0..400 {
+			if sh.started.lock().unwrap().iter().any(|(t, _)| *t == tag) {
+				return true;
+			}
+			tokio::time::sleep(Duration::from_millis(5)).await;
+		}
+		false
+	};
+	let body = json!({"jsonrpc": "2.0", "id": 1, "method": "work", "params": [tag]}).to_string();
+	if http {
+		let cfg = ServerConfig::builder().set_keep_alive(Some(Duration::from_millis(500))).set_keep_alive_timeout(Duration::from_millis(100)).build();
+		let Ok(server) = jsonrpsee_server::Server::builder().set_config(cfg).build("127.0.0.1:0").await else { return out };
+		let Ok(addr) = server.local_addr() else { return out };
+		let handle = server.start(module(sh.clone()));
+		let Ok(mut s) = jrv::tcp::connect(addr).await else { return out };
+		if jrv::tcp::send_post(&mut s, body.as_bytes(), true).await.is_err() || !wait_started(sh.clone(), tag.clone()).await {
+			out.history.push("setup not reached".into());
+			return out;
+		}
+		out.started = 1;
+		let _ = handle.stop();
+		tokio::time::sleep(Duration::from_millis(350)).await;
+		sh.release(&tag);
+		match jrv::tcp::read_response(&mut s, Duration::from_secs(20)).await {
+			Ok(rp) if rp.status == 200 && rp.json().is_some_and(|v| v["result"] == json!(tag)) => out.answered = 1,
+			other => bad!("started-call-unanswered-at-stopped/tcp-http/keep-alive-configured", "the call was in its handler at stop() and finished 350 ms later (keep-alive 500 ms, keep-alive timeout 100 ms); the peer got {:?}", other.map(|r| (r.status, r.text()))),
+		}
+		let _ = tokio::time::timeout(Duration::from_secs(20), handle.stopped()).await;
+	} else {
+		let ping = jsonrpsee_server::PingConfig::new().ping_interval(Duration::from_millis(30)).inactive_limit(Duration::from_millis(60)).max_failures(1);
+		let srv = jrv::memsrv::MemServer::new(ServerConfig::builder().enable_ws_ping(ping).build(), module(sh.clone()));
+		let Ok(mut ws) = srv.ws().await else { return out };
+		let handle = srv.handle.clone();
+		drop(srv);
+		if ws.send_text(&body).await.is_err() || !wait_started(sh.clone(), tag.clone()).await {
+			out.history.push("setup not reached".into());
+			return out;
+		}
+		out.started = 1;
+		let _ = handle.stop();
+		tokio::time::sleep(Duration::from_millis(350)).await;
+		sh.release(&tag);
+		let mut got = false;
+		loop {
+			match ws.recv(Duration::from_secs(20)).await {
+				jrv::memsrv::Recv::Frame(f) => {
+					if f.json().is_some_and(|v| v["id"] == json!(1) && v["result"] == json!(tag)) {
+						got = true;
+					}
+				}
+				_ => break,
+			}
+		}
+		if got {
+			out.answered = 1;
+		} else {
+			bad!("started-call-unanswered-at-stopped/ws/pings-enabled", "the call was in its handler at stop() and finished 350 ms later; the peer answered every ping (interval 30 ms, inactivity limit 60 ms) and was disconnected without the answer");
+		}
+		let _ = tokio::time::timeout(Duration::from_secs(20), handle.stopped()).await;
+	}
+	out
+}
+
 fn main() {
 	let ctx = Ctx::from_env("C10", "exploration");
 	install_panic_capture(true);
@@ -934,6 +1011,40 @@ fn main() {
 			}
 			for (sig, d) in o.violations {
 				violations.push(Violation::new(sig, d, json!({"family": "back-pressure at stop", "seed": s, "history": o.history})));
+			}
+		}
+	}
+	if !replay {
+		let n = ctx.tier.pick(24u64, 600);
+		let seed = ctx.seed;
+		let res: Vec<(u64, bool, BpOut)> = block_on_stress_io(8, async move {
+			let mut all = Vec::new();
+			for chunk in (0..n).collect::<Vec<_>>().chunks(12) {
+				let hs: Vec<_> = chunk
+					.iter()
+					.map(|i| {
+						let s = Rng::fork(seed, 71_000_000 + i).next_u64();
+						let http = i % 2 == 0;
+						tokio::spawn(async move { (s, http, slow_call_after_stop_case(s, http).await) })
+					})
+					.collect();
+				for h in hs {
+					if let Ok(x) = h.await {
+						all.push(x);
+					}
+				}
+			}
+			all
+		});
+		for (s, http, o) in res {
+			ev.eval();
+			ev.count(if http { "slow_call_after_stop_cases_tcp_http_keep_alive" } else { "slow_call_after_stop_cases_ws_pings" }, 1);
+			ev.count("slow_call_after_stop_answers_received", o.answered as u64);
+			if o.started > 0 {
+				ev.nontrivial(&("slow-after-stop", s));
+			}
+			for (sig, d) in o.violations {
+				violations.push(Violation::new(sig, d, json!({"family": "slow call after stop", "seed": s, "http": http})));
 			}
 		}
 	}
